@@ -148,6 +148,8 @@ def parse_value_or_config(
     if isinstance(value, dict) and cfg_path is not None:
         value["__path__"] = cfg_path
     if nested_arg:
+        if value is None:
+            value = nested_arg.val  # type: ignore[union-attr]  # text for the nested parser, where None would become "None"
         value = NestedArg(key=nested_arg.key, val=value)  # type: ignore[union-attr]
     return value, cfg_path
 
